@@ -3,8 +3,8 @@
 //
 // Families (every input is executed once, nothing is sampled):
 //
-//	A  valid texts: every string of <= 5 (thorough 6) runes over {a, B, é, 世, 😀, _}
-//	B  arbitrary bytes: every byte string of <= 5 (thorough 6) bytes over
+//	A  valid texts: every string of <= 5 (thorough 7) runes over {a, B, é, 世, 😀, _}
+//	B  arbitrary bytes: every byte string of <= 5 (thorough 7) bytes over
 //	   {a, FF, C3, A9, E4, B8, F0, 9F} that is not already in A
 //	C  identifiers w(_w)* with <= 3 words over {a, ab, a1, b2c} that are not already in A
 //
@@ -486,7 +486,7 @@ func main() {
 
 	maxRunes, maxBytes := 5, 5
 	if r.Thorough() {
-		maxRunes, maxBytes = 6, 6
+		maxRunes, maxBytes = 7, 7
 	}
 	runeAlpha := []string{"a", "B", "é", "世", "😀", "_"}
 	byteAlpha := []string{"a", "\xff", "\xc3", "\xa9", "\xe4", "\xb8", "\xf0", "\x9f"}
